@@ -210,27 +210,9 @@ theorem step_sends_final {s : Sys} (h : SysGood s) (a : In) :
         intro x hx m l hxe
         rcases (h id e he).1 with ⟨hs, _⟩ | hs
         · rw [hs] at hx
-          cases hr : e.res with
-          | responds m' =>
-            rw [hr] at hx; simp only [runDriving, respond_start] at hx
-            simp only [List.mem_cons, List.not_mem_nil, or_false] at hx
-            rcases hx with rfl | rfl | rfl <;> simp_all
-          | raises x' =>
-            rw [hr] at hx; simp only [runDriving, raise_start] at hx
-            simp only [List.mem_append, List.mem_cons, List.not_mem_nil, or_false] at hx
-            rcases hx with hx | rfl | rfl | rfl
-            · cases x' <;> simp [excToMessage] at hx <;> simp_all
-            · simp_all
-            · simp_all
-            · simp_all
-          | raisesCancelled =>
-            rw [hr] at hx
-            have : runDriving .raisesCancelled .start =
-                (.done, [.log .unhandled, .send bare500 true, .unregister, .cancelTask]) := rfl
-            rw [this] at hx
-            simp only [List.mem_cons, List.not_mem_nil, or_false] at hx
-            rcases hx with rfl | rfl | rfl | rfl <;> simp_all
-          | pending => rw [hr] at hx; simp [runDriving] at hx
+          cases runDriving_start_effs e.res x hx with
+          | send m' _ => simp_all
+          | _ => simp at hxe
         · rw [hs] at hx
           obtain ⟨k, rfl⟩ := runDriving_done_quiet e.res x hx
           simp at hxe
@@ -257,6 +239,57 @@ theorem run_sends_final {s : Sys} (h : SysGood s) (ins : List In) :
     · exact step_sends_final h a o ho m l hs
     · exact ih (step_good h a) o ho m l hs
 
+/-- every message the token manager is asked to send carries a response code -/
+theorem step_sends_response {s : Sys} (h : SysGood s) (a : In) :
+    ∀ o ∈ (step s a).2, ∀ m l, o.eff = .send m l → isResponseCode m.code = true := by
+  have key : ∀ (eff : List Eff) (id : Nat) (e : Entry),
+      (∀ x ∈ eff, ∀ m l, x = .send m l → isResponseCode m.code = true) →
+      ∀ o ∈ tag id e eff, ∀ m l, o.eff = .send m l → isResponseCode m.code = true := by
+    intro eff id e hx o ho m l hs
+    simp only [tag, List.mem_map] at ho
+    obtain ⟨x, hxm, rfl⟩ := ho
+    exact hx x hxm m l hs
+  cases a with
+  | deliver id req => simp only [step]; split <;> simp
+  | complete id =>
+    simp only [step]; split
+    · simp
+    · rename_i e he
+      split
+      · simp
+      · apply key
+        intro x hx m l hxe
+        rcases (h id e he).1 with ⟨hs, _⟩ | hs
+        · rw [hs] at hx
+          cases runDriving_start_effs e.res x hx with
+          | send m' hm' => simp only [Eff.send.injEq] at hxe; rw [← hxe.1]; exact hm'
+          | _ => simp at hxe
+        · rw [hs] at hx
+          obtain ⟨k, rfl⟩ := runDriving_done_quiet e.res x hx
+          simp at hxe
+  | stop id =>
+    simp only [step]; split
+    · simp
+    · rename_i e he
+      apply key
+      intro x hx m l hxe
+      rcases (h id e he).1 with ⟨hs, _⟩ | hs
+      · rw [hs, stop_start] at hx
+        simp only [List.mem_cons, List.not_mem_nil, or_false] at hx
+        rcases hx with rfl | rfl <;> simp at hxe
+      · rw [hs, stop_done] at hx; simp at hx
+
+theorem run_sends_response {s : Sys} (h : SysGood s) (ins : List In) :
+    ∀ o ∈ (run s ins).2, ∀ m l, o.eff = .send m l → isResponseCode m.code = true := by
+  induction ins generalizing s with
+  | nil => simp [run]
+  | cons a as ih =>
+    intro o ho m l hs
+    simp only [run, List.mem_append] at ho
+    rcases ho with ho | ho
+    · exact step_sends_response h a o ho m l hs
+    · exact ih (step_good h a) o ho m l hs
+
 /-- the `strayTombstone` branch and the token manager's "received an error" branch are dead -/
 theorem step_no_stray {s : Sys} (h : SysGood s) (a : In) :
     ∀ o ∈ (step s a).2, o.eff ≠ .strayTombstone ∧ o.eff ≠ .log .tmGotError := by
@@ -279,30 +312,10 @@ theorem step_no_stray {s : Sys} (h : SysGood s) (a : In) :
         intro x hx
         rcases (h id e he).1 with ⟨hs, _⟩ | hs
         · rw [hs] at hx
-          cases hr : e.res with
-          | responds m' =>
-            rw [hr] at hx; simp only [runDriving, respond_start] at hx
-            simp only [List.mem_cons, List.not_mem_nil, or_false] at hx
-            rcases hx with rfl | rfl | rfl <;> simp
-          | raises x' =>
-            rw [hr] at hx; simp only [runDriving, raise_start] at hx
-            simp only [List.mem_append, List.mem_cons, List.not_mem_nil, or_false] at hx
-            rcases hx with hx | rfl | rfl | rfl
-            · cases x' <;> simp [excToMessage] at hx <;> simp [hx]
-            · simp
-            · simp
-            · simp
-          | raisesCancelled =>
-            rw [hr] at hx
-            have : runDriving .raisesCancelled .start =
-                (.done, [.log .unhandled, .send bare500 true, .unregister, .cancelTask]) := rfl
-            rw [this] at hx
-            simp only [List.mem_cons, List.not_mem_nil, or_false] at hx
-            rcases hx with rfl | rfl | rfl | rfl <;> simp
-          | pending => rw [hr] at hx; simp [runDriving] at hx
+          cases runDriving_start_effs e.res x hx <;> simp
         · rw [hs] at hx
           cases hr : e.res with
-          | responds m' => rw [hr] at hx; simp [runDriving, respond_done] at hx; simp [hx]
+          | responds m' => rw [hr] at hx; simp [runDriving_responds_done] at hx; simp [hx]
           | raises x' => rw [hr] at hx; simp [runDriving, raise_done] at hx; simp [hx]
           | raisesCancelled => rw [hr] at hx; simp [runDriving, ReqState.done] at hx
           | pending => rw [hr] at hx; simp [runDriving] at hx
